@@ -1,10 +1,12 @@
 //! gcmon: history engine for the collector properties (C01-C11, C14, C20).
 mod cb;
+mod diff;
 mod collect;
 mod exec;
 mod fault;
 mod r#gen;
 mod ops;
+mod pace;
 mod run;
 mod scen;
 mod vocab;
@@ -62,6 +64,8 @@ pub struct HistResult {
     pub inconclusive: Option<String>,
     pub obs: Vec<Vec<(Ph, usize, u64, u64)>>,
     pub history: Vec<Op>,
+    pub op_events: BTreeMap<usize, u64>,
+    pub handle_log: Vec<(usize, u32, Option<u32>, u8)>,
 }
 
 pub fn apply_op(ex: &mut Exec, op: &Op) {
@@ -104,6 +108,7 @@ pub fn finish_history(ex: &mut Exec, audit: bool) {
         }
         if audit && ex.arenas[a as usize].is_some() {
             ex.op_index += 1;
+            ex.w.cur_op = ex.op_index;
             ex.history.push(Op::Audit { a });
             ex.do_audit(a);
         }
@@ -114,6 +119,7 @@ pub fn finish_history(ex: &mut Exec, audit: bool) {
         }
         if ex.arenas[a as usize].is_some() {
             ex.op_index += 1;
+            ex.w.cur_op = ex.op_index;
             ex.history.push(Op::DropArena { a });
             ex.do_drop_arena(a);
         }
@@ -137,7 +143,7 @@ pub fn finish_history(ex: &mut Exec, audit: bool) {
 
 pub fn run_random(cfg: &GenCfg, hseed: u64, trace_ops: bool) -> HistResult {
     let mut ex = Exec::new(cfg.n_arenas as usize);
-    ex.record_obs = cfg.profile == Profile::Multi;
+    ex.record_obs = cfg.n_arenas > 1;
     let mut g = Gen::new(hseed, cfg.clone());
     let len = cfg.len / 2 + g.rng.below(cfg.len / 2 + 1);
     for step in 0..len {
@@ -146,6 +152,7 @@ pub fn run_random(cfg: &GenCfg, hseed: u64, trace_ops: bool) -> HistResult {
         }
         let op = g.next_op(&mut ex, step);
         ex.op_index = ex.history.len();
+        ex.w.cur_op = ex.op_index;
         if trace_ops {
             println!("OP {}", op);
         }
@@ -165,6 +172,7 @@ pub fn run_ops(n_arenas: usize, ops: &[Op], record_obs: bool) -> HistResult {
             break;
         }
         ex.op_index = ex.history.len();
+        ex.w.cur_op = ex.op_index;
         ex.history.push(op.clone());
         apply_op(&mut ex, op);
     }
@@ -188,6 +196,8 @@ pub fn finish_result(mut ex: Exec) -> HistResult {
         inconclusive: ex.inconclusive.take(),
         obs: std::mem::take(&mut ex.obs),
         history: std::mem::take(&mut ex.history),
+        op_events: std::mem::take(&mut ex.op_events),
+        handle_log: std::mem::take(&mut ex.w.handle_log),
     }
 }
 
@@ -310,6 +320,7 @@ pub fn nontrivial_for(prop: &str, s: &Stats) -> bool {
         "C05" => any("upgrade_", "") && s.get("free_events") > 0,
         "C07" => s.get("finalize_callbacks") > 0 && (s.get("is_dead_weak_queries") + s.get("is_dead_weak_queries_clean") + s.get("resurrect_live") + s.get("resurrect_strong") > 0),
         "C08" => s.get("phase_contract_checks") >= 5,
+        "C09" => s.get("pace_bound_checks") + s.get("pace_sleep_checks_past_wakeup") + s.get("pace_stw_checks") > 0,
         "C10" => s.get("metrics_checks") >= 5 && (any("touch_", "_Sleeping") || s.get("adjust_debt_checks") > 0),
         "C11" => s.get("injected_panics_caught") > 0,
         "C14" => any("stash_", "") && (s.get("handle_drops") > 0 || s.get("fetch_own") + s.get("fetch_foreign") > 0),
@@ -339,11 +350,12 @@ fn profile_of(s: &str) -> Profile {
         "metrics" => Profile::Metrics,
         "xor" => Profile::Xor,
         "multi" => Profile::Multi,
+        "pace" => Profile::Pace,
         _ => Profile::General,
     }
 }
 
-fn cfg_from(args: &Args) -> GenCfg {
+pub fn cfg_from(args: &Args) -> GenCfg {
     GenCfg {
         profile: profile_of(&args.get("profile", "general")),
         n_arenas: args.num("arenas", 1) as u8,
@@ -362,6 +374,17 @@ fn replay_json(mode: &str, args: &Args, hs: u64, idx: u64) -> J {
         }
     }
     J::obj().set("mode", mode).set("hseed", format!("{}", hs)).set("index", idx).set("args", a)
+}
+
+fn post_process(prop: &str, cfg: &GenCfg, r: &mut HistResult) {
+    if prop == "C11" {
+        diff::c11_filter(cfg.n_arenas as usize, r);
+    }
+    if prop == "C20" && cfg.n_arenas > 1 {
+        let mut st = std::mem::take(&mut r.stats);
+        diff::c20_check(cfg.n_arenas as usize, r, &mut st);
+        r.stats = st;
+    }
 }
 
 fn mode_random(args: &Args) {
@@ -385,10 +408,11 @@ fn mode_random(args: &Args) {
         if trace {
             println!("BEGIN {} {}", idx, hs);
         }
-        let r = run_random(&cfg, hs, trace);
+        let mut r = run_random(&cfg, hs, trace);
         if trace {
             println!("END {}", idx);
         }
+        post_process(&prop, &cfg, &mut r);
         let nt = nontrivial_for(&prop, &r.stats);
         let mut rj = replay_json("random", args, hs, idx);
         rj.put("pacing", cfg.pacing as u64);
@@ -410,7 +434,8 @@ fn mode_replay(args: &Args) {
         cfg.pacing = p.parse().unwrap_or(0);
     }
     fault::set_quiet(!args.flag("loud"));
-    let r = run_random(&cfg, hs, true);
+    let mut r = run_random(&cfg, hs, true);
+    post_process(&prop, &cfg, &mut r);
     let mut agg = Agg::new();
     agg.own = own_props(&prop);
     agg.add(&prop, &r, replay_json("random", args, hs, 0), true);
@@ -430,6 +455,7 @@ fn main() {
         "random" => mode_random(&args),
         "replay" => mode_replay(&args),
         "scen" => scen::mode_scen(&args),
+        "faultenum" => diff::mode_faultenum(&args),
         m => {
             eprintln!("unknown mode {}", m);
             std::process::exit(2);
